@@ -425,7 +425,7 @@ func (brr *BalanceRR) simpleBalance() (*backend.BfeBackend, error) {
 				if bfe_debug.DebugBal {
 					log.Logger.Debug("rr_bal:all backend is down")
 				}
-				return backend, fmt.Errorf("rr_bal:all backend is down")
+				return nil, fmt.Errorf("rr_bal:all backend is down")
 			} else {
 				if bfe_debug.DebugBal {
 					log.Logger.Debug("rr_bal:reset backend weight")
